@@ -20,7 +20,6 @@ import (
 	"time"
 
 	"github.com/Jigsaw-Code/outline-sdk/transport/shadowsocks"
-	"github.com/Jigsaw-Code/outline-ss-server/service"
 	"github.com/shadowsocks/go-shadowsocks2/socks"
 )
 
@@ -427,15 +426,12 @@ var vKeyClass = map[int]int{1: 1, 2: 2, 3: 3, 4: 1, 6: 4, 7: 5}
 
 func (h *vHarness) runHandover(sc vScenario, sk *hoSink) {
 	m := newVMetrics()
-	server := &OutlineServer{
-		lnManager:      service.NewListenerManager(),
-		natTimeout:     150 * time.Millisecond,
-		serverMetrics:  newPrometheusServerMetrics(),
-		serviceMetrics: m,
-		replayCache:    service.NewReplayCache(sc.Replay),
-	}
 	s := &hoState{h: h, m: m}
 	h.emit(map[string]any{"ev": "Scenario", "id": sc.ID, "replay": sc.Replay})
+	server := h.newServer(m, sc.Replay)
+	if server == nil {
+		return
+	}
 	nrelay := sc.ID * 1000
 	var cur *vCfg
 	// hammer: free-running clients on every tcp address x class, judged by TLC with the configurations live during each op
